@@ -287,12 +287,14 @@ type consumer struct {
 	waitPiece int
 	waitSince int // step at which the request was queued
 	abandoned bool
-	waiting   bool
-	pi, pp    int // the request being issued
-	pwant     bool
-	sentStep  int
-	atGate    bool // parked at Request.checked, command not queued yet
-	askStep   int  // step at which the request looked at the store
+	// a withdrawal overtook the consumer's own queued want-request
+	abandonPending bool
+	waiting        bool
+	pi, pp         int // the request being issued
+	pwant          bool
+	sentStep       int
+	atGate         bool // parked at Request.checked, command not queued yet
+	askStep        int  // step at which the request looked at the store
 }
 
 type qev struct {
@@ -465,6 +467,11 @@ func runRequests(sc *Scenario, out *Out) {
 			if c.waiting && c.waitPiece == st.I {
 				c.abandoned = true
 			}
+			if c.busy && c.pwant && c.pi == st.I {
+				// withdrawn while its own want-request is still queued: the
+				// wait that request will start is abandoned from the outset
+				c.abandonPending = true
+			}
 		case "Loop":
 			if len(w.gates) < 2 {
 				applied = false
@@ -489,7 +496,8 @@ func runRequests(sc *Scenario, out *Out) {
 					c.waiting = r.ch != nil
 					c.waitPiece = e.i
 					c.waitSince = e.ask
-					c.abandoned = false
+					c.abandoned = c.abandonPending
+					c.abandonPending = false
 					if r.err != nil {
 						w.viol("C10", "request-error", fmt.Sprintf("Request returned %v", r.err))
 					}
@@ -561,7 +569,8 @@ func runRequests(sc *Scenario, out *Out) {
 			c.waiting = r.ch != nil
 			c.waitPiece = e.i
 			c.waitSince = e.ask
-			c.abandoned = false
+			c.abandoned = c.abandonPending
+			c.abandonPending = false
 		case <-time.After(10 * time.Second):
 			w.viol("C10", "request-hang", "Torrent.Request did not return although the loop is running")
 			return
